@@ -119,8 +119,18 @@ def rule_bounded_read(ctx, cd):
                     ok = len(args) >= 3 and args[0:3] == ["&buffer[0]", "capacity_bytes", "offset_bits"]
                 ctx.ob(R, t.rel, f"c: {mname}: {m.group(1)} receives (&buffer[0], capacity_bytes, offset_bits)", ok,
                        "" if ok else f"arguments {args}: the getter is told a different buffer, size or cursor than the routine was given")
-    ctx.floor(R + ":raw", n_raw, 3)
-    ctx.floor(R + ":getters", n_get, 4)
+    # anchor: every path of the scalar emitters contains a read the rule recognises (raw index or support getter) - how many of
+    # each kind there are is the template's business (a raw read replaced by a getter call is still a judged read)
+    n_paths = n_seen = 0
+    for mname in ("_deserialize_boolean", "_deserialize_integer", "_deserialize_float"):
+        for p in cd.paths("c", "des", mname):
+            text = cd.text("c", p)
+            n_paths += 1
+            if re.search(r"(?<![&\w])buffer\[([^\]]*)\]", text) or re.search(r"\bnunavutGet\w+ ?\(", text):
+                n_seen += 1
+    ctx.floor(R + ":scalar-paths", n_paths, 5)
+    ctx.floor(R + ":scalar-reads", n_seen, n_paths)
+    ctx.floor(R + ":reads", n_raw + n_get, 5)
     tc = cd.tmpl("cpp", "des")
     raw = []
     for mname in sorted(cd.ts.macros(tc)):
@@ -343,6 +353,7 @@ def run(ctx):
     ts = j2front.TemplateSet(ctx.root)
     cd = Codec(ts)
     C01.rule_dispatch(ctx, cd, "des", "R-C02-DISPATCH")
+    _codec.rule_entry(ctx, cd, "des", "R-C02-ENTRY")
     rule_bounded_read(ctx, cd)
     rule_repr_err(ctx, cd)
     rule_consumed(ctx, cd)
